@@ -909,7 +909,9 @@ func (c ConditionsSet) invert() ConditionsSet {
 	// !(a | b | c) == (!a & !b & !c)
 	conds := ConditionsSet{}
 	for _, cc := range c {
-		conds = conds.And(cc.invert())
+		// keep the intermediate product small: without removing duplicate and absorbed
+		// conjunctions here it grows exponentially even when the result is tiny
+		conds = conds.And(cc.invert()).Clean()
 	}
 	return conds
 }
